@@ -40,6 +40,10 @@ const ageTestKey = "AGE-SECRET-KEY-1FSHC0YC7XUCUJ7JWRT0LDHY4EWTM5M60APTCXTM2ZQ5Y
 type C02Config struct {
 	Root  *sim.Node      `json:"root"`
 	Blobs []sim.BlobSpec `json:"blobs"`
+	// Preseed: node name -> blob indices received directly into that store
+	// of the composition before the first offer (the read-only lower layer
+	// of an overlay cannot be filled any other way).
+	Preseed map[string][]int `json:"preseed,omitempty"`
 }
 
 // Part is one (ref, bytes) pair offered to an ingest path.
@@ -61,7 +65,10 @@ type Part struct {
 type Offer struct {
 	// Path: receive (blobserver.Receive) | nohash (blobserver.ReceiveNoHash
 	// into a store that re-verifies) | direct (ReceiveBlob of such a store) |
-	// put | put-chunked | mp | mp-chunked
+	// put | put-chunked | mp | mp-chunked; "remove": not an upload - the
+	// part's base blob is removed through the store (where it supports
+	// removal), so that a later rejected upload of that ref meets a ref
+	// the store has been told to forget
 	Path   string     `json:"path"`
 	Parts  []Part     `json:"parts"`
 	Reader ReaderSpec `json:"reader"`
@@ -160,8 +167,10 @@ type c02 struct {
 	srv    *SimServer
 	hubs   []*hubRec
 	stored map[string][]byte
-	reach  map[string]int
-	mu     sync.Mutex
+	// removed: refs removed through the store and not validly accepted since
+	removed map[string]bool
+	reach   map[string]int
+	mu      sync.Mutex
 }
 
 func (s *c02) reached(name string) {
@@ -691,8 +700,61 @@ func size(b []byte) string {
 
 // runGroup executes offers[i:j] concurrently, observes the store at
 // quiescence and judges. It reports whether the run should stop.
+// runRemove executes a "remove" offer. The removal counts only when the store
+// afterwards does not serve the ref any more (whether removal works is C01's
+// subject); its leaves may keep the bytes (an overlay never touches its lower
+// layer), so leaf scans are not traces for such a ref from then on.
+func (s *c02) runRemove(of Offer, i int) bool {
+	if len(of.Parts) == 0 {
+		return false
+	}
+	b := s.pool[of.Parts[0].B]
+	ref := b.Ref.String()
+	rm, ok := s.sto.(blobserver.BlobRemover)
+	if !ok {
+		return false
+	}
+	var rerr error
+	if herr := s.task("remove", func() { rerr = rm.RemoveBlobs(context.Background(), []blob.Ref{b.Ref}) }); herr != nil {
+		return s.report("hang:remove", "RemoveBlobs never returned: "+herr.Error(), i) || true
+	}
+	if rerr != nil {
+		s.reached("remove-refused")
+		return false
+	}
+	var obs map[string]*refObs
+	var oerr error
+	if herr := s.task("observe", func() { obs, _, oerr = s.observe([]blob.Ref{b.Ref}) }); herr != nil || oerr != nil {
+		return s.report("observe-failed", fmt.Sprintf("reading the store back after a removal failed: %v %v", herr, oerr), i) || true
+	}
+	o := obs[ref]
+	if o.fetchErr == nil || o.stat || o.enum {
+		s.reached("remove-without-effect")
+		return false
+	}
+	if _, had := s.stored[ref]; had {
+		s.reached("stored-blob-removed")
+	}
+	delete(s.stored, ref)
+	if s.removed == nil {
+		s.removed = map[string]bool{}
+	}
+	s.removed[ref] = true
+	// drain the hubs: a removal notifies nobody, and what it may have
+	// caused is not attributed to the next offer
+	for _, h := range s.hubs {
+		h.mu.Lock()
+		h.hooks = nil
+		h.mu.Unlock()
+	}
+	return false
+}
+
 func (s *c02) runGroup(offers []Offer, i, j int) bool {
 	group := offers[i:j]
+	if len(group) == 1 && group[0].Path == "remove" {
+		return s.runRemove(group[0], i)
+	}
 	res := make([]*offerRes, len(group))
 	for k := range group {
 		k := k
@@ -806,6 +868,7 @@ func (s *c02) runGroup(offers []Offer, i, j int) bool {
 			case pr.accepted:
 				if pr.valid || s.plausible(pr) {
 					s.stored[pr.refStr] = pr.eff
+					delete(s.removed, pr.refStr)
 					okNow[pr.refStr] = true
 					if int(pr.size) != len(pr.eff) {
 						if s.report("accepted-wrong-size:"+of.Path, fmt.Sprintf("%s accepted, reported size %d", what, pr.size), i+k) {
@@ -883,8 +946,15 @@ func (s *c02) runGroup(offers []Offer, i, j int) bool {
 				traces = append(traces, "enumerate: enumerate lists it")
 			}
 			for _, l := range o.leaf {
+				if s.removed[pr.refStr] {
+					// removed earlier: a lower layer may keep the bytes
+					continue
+				}
 				kind, _, _ := strings.Cut(l, ":")
 				traces = append(traces, "leaf-"+kind+": bytes kept under the ref in "+l)
+			}
+			if s.removed[pr.refStr] && len(traces) == 0 {
+				s.reached("rejected-upload-of-removed-ref-left-no-trace")
 			}
 			for _, n := range notified[pr.refStr] {
 				kind := "hub-listener"
@@ -995,6 +1065,25 @@ func execC02(rc *harness.RunCtx, p *harness.Plan) *harness.Outcome {
 		s.sto, berr = s.world.Build(cfg.Root)
 		if berr != nil {
 			return
+		}
+		for _, name := range sim.SortedKeys(cfg.Preseed) {
+			kid, err := s.world.GetStorage("/" + name + "/")
+			if err != nil {
+				berr = fmt.Errorf("preseed: %w", err)
+				return
+			}
+			for _, bi := range cfg.Preseed[name] {
+				if bi < 0 || bi >= len(s.pool) {
+					continue
+				}
+				b := s.pool[bi]
+				if _, err := blobserver.Receive(context.Background(), kid, b.Ref, bytes.NewReader(b.Data)); err != nil {
+					berr = fmt.Errorf("preseed %s into %s: %w", b.Ref, name, err)
+					return
+				}
+				s.stored[b.Ref.String()] = b.Data
+				s.reached("preseeded-blob")
+			}
 		}
 		s.recv = &recvStore{Storage: s.sto, conf: &blobserver.Config{Writable: true, Readable: true, CanLongPoll: true}}
 		put := handlers.CreatePutUploadHandler(s.recv)
